@@ -126,4 +126,12 @@ theorem tie_getorcreate_safe (fast : Bool) (h : (gocShape C06.rmGetOrCreate).map
     ∀ r ∈ (grun fast true sched).recs, (grun fast true sched).map = some r.1 :=
   (goc_no_lost_update fast sched).2.1
 
+/-- round 4: Plugin.RestoreReservation computes a reservation's remainder with subtractAllocated(…, false) - SIGNED, the
+    shape `restore_never_reports_held_amount_free` is about - and never with the clamping variant, which
+    `restore_clamped_counterexample` refutes (vacuous if the helper was renamed: then only the `rsv` harness guards). -/
+theorem tie_restore_remainder_signed :
+    C06.subtractAllocatedKnown = false ∨
+      ("Plugin.RestoreReservation" ∈ C06.subtractSignedCallers ∧ "Plugin.RestoreReservation" ∉ C06.subtractClampedCallers) := by
+  decide
+
 end KoordVerif.C06
